@@ -102,17 +102,17 @@ theorem updLoop_store (C : Codec) (us : List UpdEntry) :
     cases hb : u.bad with
     | true =>
       have : ¬ GoodEntry C u := by simp [GoodEntry, hb]
-      simp [ih, List.filter_cons, this]
+      simp [ih, this]
     | false =>
       simp only [Bool.false_eq_true, if_false, ih]
       by_cases hv : Valid C u.d u.data
       · have hg : GoodEntry C u := ⟨hb, hv⟩
         have hs := (sliceBuffer_ok_iff C u.d u.data u.data).mpr ⟨rfl, hv⟩
-        simp [List.filter_cons, hg, backendPut, hs]
+        simp [hg, backendPut, hs]
       · have hg : ¬ GoodEntry C u := fun h => hv h.2
         cases hs : sliceBuffer C u.d u.data with
         | ok c => exact absurd ((sliceBuffer_ok_iff C u.d u.data c).mp hs).2 hv
-        | error e => simp [List.filter_cons, hg, backendPut]
+        | error e => simp [hg, backendPut]
 
 /-- any backend faults: whatever the backend holds afterwards was there before or is the
 data of a good entry of this request -/
@@ -145,5 +145,58 @@ theorem updLoop_get (C : Codec) (fault : Option (Nat × Bool)) (us : List UpdEnt
             refine ⟨u, by simp, ⟨by simpa using hb, hs.2⟩, hd, ?_⟩
             rw [← h1, hs.1]
           · simp [hd] at h1; left; exact h1
+
+end BB.ByteStream
+
+namespace BB.ByteStream
+
+/-- admission of `BatchReadBlobs`: every digest parses and the sizes add up to at most the limit -/
+theorem readAdmit_none (rs : List RdEntry) :
+    ∀ (remaining : Int), 0 ≤ remaining → readAdmit remaining rs = none →
+      (∀ r ∈ rs, r.bad = false) ∧ ((rs.map fun r => (r.d.size : Int)).sum ≤ remaining) := by
+  induction rs with
+  | nil => intro remaining h0 _; simpa using h0
+  | cons r rs ih =>
+    intro remaining h0 h
+    simp only [readAdmit] at h
+    by_cases hb : r.bad = true
+    · simp [hb] at h
+    · by_cases hs : (r.d.size : Int) > remaining
+      · simp [hb, hs] at h
+      · simp only [hb, Bool.false_eq_true, if_false, hs] at h
+        have := ih _ (by omega) h
+        refine ⟨?_, ?_⟩
+        · intro x hx
+          cases hx with
+          | head => simpa using hb
+          | tail _ hx => exact this.1 x hx
+        · simp only [List.map_cons, List.sum_cons]
+          have h2 := this.2
+          omega
+
+theorem mem_dedup (l : List Digest) (d : Digest) : d ∈ dedup l ↔ d ∈ l := by
+  induction l with
+  | nil => simp [dedup]
+  | cons x xs ih =>
+    simp only [dedup]
+    by_cases hx : x ∈ xs
+    · simp only [hx, if_true, ih, List.mem_cons]
+      constructor
+      · intro h; exact Or.inr h
+      · intro h
+        cases h with
+        | inl h => rw [h]; exact hx
+        | inr h => exact h
+    · simp [hx, ih]
+
+theorem nodup_dedup (l : List Digest) : (dedup l).Nodup := by
+  induction l with
+  | nil => simp [dedup]
+  | cons x xs ih =>
+    simp only [dedup]
+    by_cases hx : x ∈ xs
+    · simp [hx, ih]
+    · simp only [hx, if_false, List.nodup_cons]
+      exact ⟨fun h => hx ((mem_dedup xs x).mp h), ih⟩
 
 end BB.ByteStream
